@@ -7,6 +7,7 @@ __CPROVER_thread_local W vm_tid;     /* CBMC thread == fiber / thread index */
 __CPROVER_thread_local W vm_kt;      /* kernel-thread identity the code currently runs on (selects thread-locals) */
 __CPROVER_thread_local _Bool vm_dead; /* this CBMC thread is parked for good: unwind and terminate */
 __CPROVER_thread_local int vm_spins, vm_stage;
+__CPROVER_thread_local unsigned char vm_final_status;
 __CPROVER_thread_local W vm_cas_ok;   /* success flag of the last compare-and-swap of this thread (no pointer out-parameter: keeps locals private) */
 /* one status word per thread (a single shared cell, so that a quiescence test costs one read per other thread) */
 #define VS_RUN 0    /* running */
